@@ -526,6 +526,11 @@ def check_history(scn, res, goldens, prop):
             for f in text_fields(o):
                 if o.get(f + "_sha") != g.get(f + "_sha"):
                     for site, excerpt in classify(g.get(f, ""), o.get(f, "")):
+                        if o.get("counter_straddle"):
+                            # UFL orders Constants / geometry of different meshes inside sums and
+                            # products by repr(), i.e. by the string of their global counters: a
+                            # distinct, separately listed cause (outside this repository)
+                            site = "ufl-terminal-order"
                         if site == "signature-hash-in-names" and o.get("np_print_exposed") \
                                 and "npstr" in R.get(o["D"]).tags:
                             # same cause as C13's N-STABLE/module/np-printoptions: the object
@@ -538,14 +543,16 @@ def check_history(scn, res, goldens, prop):
                 continue
             if o.get("module_name") != g.get("module_name"):
                 key = "N-STABLE/module"
-                if o.get("np_print_exposed") and "npstr" in R.get(o["D"]).tags:
+                if o.get("counter_straddle"):
+                    key = "N-STABLE/module/ufl-terminal-order"
+                elif o.get("np_print_exposed") and "npstr" in R.get(o["D"]).tags:
                     # arrays inside the UFL/basix signature were str()'d under non-default numpy
                     # print options: a distinct, separately listed cause
                     key = "N-STABLE/module/np-printoptions"
                 v.append({"key": key, "at": o["at"], "D": o["D"], "okey": obs_key(o),
                           "detail": f"{o.get('module_name')} != golden {g.get('module_name')}"})
             elif o.get("object_names") != g.get("object_names"):
-                v.append({"key": "N-STABLE/object", "at": o["at"], "D": o["D"], "okey": obs_key(o),
+                v.append({"key": "N-STABLE/object" + ("/ufl-terminal-order" if o.get("counter_straddle") else ""), "at": o["at"], "D": o["D"], "okey": obs_key(o),
                           "detail": f"{o.get('object_names')} != golden {g.get('object_names')}"})
             v += ident_violations(o)
     return v
@@ -637,10 +644,24 @@ def sep_violations(goldens):
 # one run = generate + execute + check (worker side)
 
 
+def _witness_terminal_order(mode):
+    """The recorded history of the known finding '.../ufl-terminal-order' (a request whose own
+    Constants get the counters 99, 100, 101), run in every check so that the finding is shown -
+    or its disappearance noticed - independently of the seed."""
+    ops = [["create", "constant", 98], ["build", "s0", "linear_cellwise_const_qdeg4_tri", []],
+           ["build", "s1", "many_ties_tri", []], ["jitname", "s1"]]
+    if mode == "text":
+        ops.append(["compile", "s1", None])
+    return {"hashseed": 0, "ops": ops, "seed": -101, "mode": mode, "witness": "ufl-terminal-order"}
+
+
+WITNESS = {-101: _witness_terminal_order}  # negative seeds: fixed histories, not generated ones
+
+
 def _run_job(a):
     seed, mode, thorough, prop, goldens_path, hashseed = a
     goldens = _load_goldens(goldens_path)
-    scn = gen_history(seed, mode, thorough, hashseed)
+    scn = WITNESS[seed](mode) if seed in WITNESS else gen_history(seed, mode, thorough, hashseed)
     res = run_child(scn["hashseed"], scn["ops"], want_text=False)
     if res.get("crash") and res.get("rc") == 41 << 8:
         raise core.HarnessError(f"thread scheduler of history {seed} deadlocked (exit 41)")
@@ -991,6 +1012,7 @@ def run_check(prop, tier, base, replay_path=None):
 
     jobs = [(core.run_seed(base, i), mode, thorough, prop, gpath, group_hashseed(base, i))
             for i in range(n_hist)]
+    jobs += [(w, mode, thorough, prop, gpath, 0) for w in sorted(WITNESS)]
     try:
         results = _run_groups(jobs)
         nondet, ndet = _selftest_determinism(16 if not thorough else 64, mode, thorough, prop, gpath,
